@@ -74,7 +74,7 @@ def noStoredZerosB [Zero α] [DecidableEq α] (c : CS α) : Bool := c.data.all (
 /-! ## table level -/
 
 inductive Fmt where
-  | csr | csc
+  | csr | csc | coo
   deriving Repr, DecidableEq, BEq
 
 /-- a table as the implementation holds it: identity fields plus one concrete layout of the matrix
@@ -99,11 +99,12 @@ def normMd : Option (List (Option Md)) → Option (List Md)
   | some l => if l.all (fun m => match m with | none => true | some e => e.isEmpty) then none
               else some (l.map (fun m => m.getD []))
 
-/-- `Table.__init__` on a matrix already in CSR form (`tocsr`/`_to_sparse` are scipy's) -/
+/-- `Table.__init__` on the matrix that `tocsr` (sparse input: `fmt = csr`) or `_to_sparse` (any other
+input form; scipy decides the format) handed back, seen row-major -/
 def construct [Zero α] [DecidableEq α] (ttype : Option String) (obs samp : List Id)
-    (omd smd : Option (List (Option Md))) (input : CS α) : Rep α :=
+    (omd smd : Option (List (Option Md))) (input : CS α) (fmt : Fmt := .csr) : Rep α :=
   { ttype := ttype, obs := obs, samp := samp, omd := normMd omd, smd := normMd smd,
-    data := eliminateZeros input, fmt := .csr }
+    data := eliminateZeros input, fmt := fmt }
 
 /-- `__eq__` (both operands are tables) -/
 def tableEq [Zero α] [DecidableEq α] (r₁ r₂ : Rep α) : Bool :=
@@ -142,13 +143,15 @@ inductive Acc where
   | nnz          -- `t.nnz`: eliminate_zeros in place
   | vecObs       -- `data(id, 'observation')`, `iter(axis='observation')`: `_get_row` → tocsr
   | vecSamp      -- `data(id, 'sample')`, `iter()`: `_get_col` → tocsc
-  | plain        -- `matrix_data`, `get_value_by_ids`, `sum`: nothing is re-laid
+  | getValue     -- `get_value_by_ids`: `__getitem__` converts a COO matrix to CSR, nothing else
+  | plain        -- `matrix_data`, `sum`, `metadata`: nothing is re-laid
   deriving Repr, DecidableEq, BEq
 
 def Acc.apply [Zero α] [DecidableEq α] (conv : CS α → CS α) : Acc → Rep α → Rep α
   | .nnz, r => { r with data := eliminateZeros r.data }
   | .vecObs, r => if r.fmt = .csr then r else { r with data := conv r.data, fmt := .csr }
   | .vecSamp, r => if r.fmt = .csc then r else { r with data := conv r.data, fmt := .csc }
+  | .getValue, r => if r.fmt = .coo then { r with data := conv r.data, fmt := .csr } else r
   | .plain, r => r
 
 /-- does `_data_equality` get as far as `self._data = self._data.tocsr()`? -/
@@ -312,17 +315,19 @@ def asAcc (s : String) : R Acc :=
   | "nnz" => pure .nnz
   | "data_obs" | "iter_obs" => pure .vecObs
   | "data_samp" | "iter_samp" => pure .vecSamp
-  | "matrix_data" | "get_value" | "sum" => pure .plain
+  | "get_value" => pure .getValue
+  | "matrix_data" | "sum" | "metadata" => pure .plain
   | s => .error s!"bad accessor {s}"
 
 def asFmt (s : String) : R Fmt :=
   match s with
   | "csr" => pure .csr
   | "csc" => pure .csc
+  | "coo" => pure .coo
   | s => .error s!"bad format {s}"
 
 def fmtName : Fmt → String
-  | .csr => "csr" | .csc => "csc"
+  | .csr => "csr" | .csc => "csc" | .coo => "coo"
 
 /-- operand: {"ttype","obs","samp","omd_in","smd_in","layout":CS,"ctor":bool} -/
 def asRep (j : Json) : R (Rep Rat) := do
@@ -332,11 +337,11 @@ def asRep (j : Json) : R (Rep Rat) := do
   let omd ← optF (asList asMdIn) j "omd_in"
   let smd ← optF (asList asMdIn) j "smd_in"
   let layout ← asCS (← fld j "layout")
+  let fmt ← asFmt (← strFD j "fmt" "csr")
   if (← boolF j "ctor") then
-    pure (construct ttype obs samp omd smd layout)
+    pure (construct ttype obs samp omd smd layout fmt)
   else
-    pure { ttype, obs, samp, omd := normMd omd, smd := normMd smd, data := layout,
-           fmt := (← asFmt (← strFD j "fmt" "csr")) }
+    pure { ttype, obs, samp, omd := normMd omd, smd := normMd smd, data := layout, fmt := fmt }
 
 def asCheck (j : Json) : R Check := do
   pure { eqAB := (← boolF j "eq_ab"), eqBA := (← boolF j "eq_ba"), neAB := (← boolF j "ne_ab"),
@@ -380,8 +385,8 @@ def handlePair (req : Json) : R Json := do
   let fmtA ← strF ja "fmt_after"
   let fmtB ← strF jb "fmt_after"
   let contract :=
-    layoutOk obs.a' fmtA (← asCS (← fld ja "layout_after")) &&
-    layoutOk obs.b' fmtB (← asCS (← fld jb "layout_after"))
+    layoutOk obs.a' (← strF ja "fmt_final") (← asCS (← fld ja "layout_after")) &&
+    layoutOk obs.b' (← strF jb "fmt_final") (← asCS (← fld jb "layout_after"))
   let agreeChecks := decide (mchecks = obs.checks)
   let agreeContent := decide (ra.content = obs.a) && decide (rb.content = obs.b)
   let agreeFmt := fmtName af.fmt == fmtA && fmtName bf.fmt == fmtB
